@@ -873,9 +873,15 @@ def _nonempty_test(test, outcome, R):
     return "other"
 
 
-def rule_fr3(ctx: Ctx):
+def rule_fr3_prompt(ctx: Ctx):
+    """FR-3 with the promptness clause (C11 only): a chunk is emitted before the next one is read."""
+    return rule_fr3(ctx, lazy=True)
+
+
+def rule_fr3(ctx: Ctx, lazy=False):
     """FR-3: file.read emits every chunk it reads until the first empty one, in order, then completes."""
-    r3 = RuleResult("FR-3", "file.read: every non-empty chunk read is emitted once, in order; reading stops at the first empty chunk (or on disposal); then on_completed")
+    r3 = RuleResult("FR-3", "file.read: every non-empty chunk read is emitted once, in order; reading stops at the first empty chunk (or on disposal); then on_completed"
+                    + ("; each chunk is emitted before the next one is read" if lazy else ""))
     m, fn = ctx.function(FILE, "read")
     inner = [f for f in ast.walk(fn) if isinstance(f, ast.FunctionDef) and f is not fn]
     def has_completed(f, own=True):
@@ -889,6 +895,23 @@ def rule_fr3(ctx: Ctx):
         raise AnalysisError("file.read: expected one inner function that completes the observer, found %d" % len(acts))
     act = acts[0]
     r3.instances += 1
+    # reading through a generator: the path enumeration does not follow generators.  One form is decided from the syntax alone -- the
+    # generator that reads is drained into a list / tuple before anything is emitted: every chunk of the file is read before the first
+    # one reaches the subscriber (and the whole file is held in memory); any other use of a generator is not analysable here.
+    gens = [g for g in ast.walk(fn) if isinstance(g, ast.FunctionDef) and any(isinstance(y, (ast.Yield, ast.YieldFrom)) and m.enclosing_function(y) is g for y in ast.walk(g))
+            and any(isinstance(c, ast.Call) and isinstance(c.func, ast.Attribute) and c.func.attr == "read" for c in ast.walk(g))]
+    if gens:
+        names = {g.name for g in gens}
+        drained = [c for c in ast.walk(fn) if isinstance(c, ast.Call) and isinstance(c.func, ast.Name) and c.func.id in ("list", "tuple", "sorted") and c.args
+                   and isinstance(c.args[0], ast.Call) and isinstance(c.args[0].func, ast.Name) and c.args[0].func.id in names]
+        drained += [c for c in ast.walk(fn) if isinstance(c, (ast.List, ast.Tuple)) and any(
+            isinstance(e, ast.Starred) and isinstance(e.value, ast.Call) and isinstance(e.value.func, ast.Name) and e.value.func.id in names for e in c.elts)]
+        if drained and lazy:
+            r3.ob(False, lambda: Finding("FR-3", "%s::read{eager}" % FILE, m.where(drained[0]),
+                                         "%s drains the generator that reads the file before anything is emitted: every chunk is read (and kept in memory) before the "
+                                         "first one reaches the subscriber, so a line or row is no longer emitted when the chunk that completes it is read" % ast.unparse(drained[0])[:60]))
+            return r3
+        raise AnalysisError("file.read reads the file through the generator %s; FR-3 does not follow generators" % sorted(names))
     space = {}
     for p in ctx.fn_paths(m, act, max_iter=1):
         pass
@@ -938,6 +961,13 @@ def rule_fr3(ctx: Ctx):
                     saw["empty"] = True
                     if k != len(reads) - 1:
                         bad = "reading goes on after an empty chunk"
+            if bad is None:
+                # laziness: a chunk is emitted before the next one is read
+                pos = {id(e): k for k, e in enumerate(p.trace)}
+                for k in range(len(reads) - 1 if lazy else 0):
+                    em = [x for x in outs if x.eff.arg == reads[k].result]
+                    if em and pos.get(id(em[0].eff), -1) > pos.get(id(reads[k + 1]), 10 ** 9):
+                        bad = "chunk %d is emitted after chunk %d has been read: output waits for input that does not determine it" % (k + 1, k + 2)
             if bad is None:
                 got = [x.eff.arg for x in outs]
                 if got != want:
